@@ -278,6 +278,7 @@ func runSessionFaulty(sim *core.Sim, a, b *stationRT, sp SessionPlan) (ra, rb *s
 	sa := a.session(b, sp.AMaster)
 	sb := b.session(a, !sp.AMaster)
 	ga := a.exchange(sim, sa, pipe.WithCaps(link.A, sp.Link.CapsA), link.A, ra)
+	sim.Pause()
 	gb := b.exchange(sim, sb, pipe.WithCaps(link.B, sp.Link.CapsB), link.B, rb)
 	// wait for the first of: both done / one done (then the other gets 5 minutes)
 	select {
